@@ -187,6 +187,15 @@ def _run_forms(ctx, spec, rng):
     a = ctx.call(partial_trace, z, None, [dd, dd])
     if a is not FAILED:
         ctx.check("O3:defaults", np.array_equal(a, ref.partial_trace(z, [1], [dd, dd])), sig=("dimonly", dd), mech="partial_trace:default-sys", detail={"d": dd})
+    nn = int(rng.integers(2, 5))
+    dl = gen.dims(rng, nn, 1, 3, max_total=64)
+    w = gen.unique_ids((int(np.prod(dl)),) * 2, "ic"[int(rng.integers(0, 2))])
+    for how in ("keyword", "positional-none"):
+        a = ctx.call(partial_trace, w, dim=list(dl)) if how == "keyword" else ctx.call(partial_trace, w, None, np.array(dl))
+        if a is not FAILED:
+            want = ref.partial_trace(w, [1], dl)
+            ctx.check("O3:defaults", np.shape(a) == want.shape and np.array_equal(a, want), sig=("dim-list-only", nn, how, len(set(dl)) > 1), nt=nn > 2,
+                      mech="partial_trace:default-sys[dim-list-given]", detail={"dims": dl, "how": how})
 
 
 def _run_cvx(ctx, spec, rng):
